@@ -46,6 +46,11 @@ type Host struct {
 	mu       sync.Mutex
 	addrs    []ma.Multiaddr
 	handlers map[protocol.ID]network.StreamHandler
+	// matchers: match function of a handler registered with
+	// SetStreamHandlerMatch (none: the name itself is the only match);
+	// regOrder: names in registration order. Only Negotiate reads them.
+	matchers map[protocol.ID]func(protocol.ID) bool
+	regOrder []protocol.ID
 
 	// DialLog records every Connect that reached the dial seam.
 	DialLog []peer.ID
@@ -128,19 +133,75 @@ func (h *Host) Connect(ctx context.Context, pi peer.AddrInfo) error {
 }
 
 func (h *Host) SetStreamHandler(pid protocol.ID, handler network.StreamHandler) {
+	h.setHandler(pid, nil, handler)
+}
+
+func (h *Host) SetStreamHandlerMatch(pid protocol.ID, m func(protocol.ID) bool, handler network.StreamHandler) {
+	h.setHandler(pid, m, handler)
+}
+
+// setHandler registers like a multistream muxer: an entry with the same name
+// is replaced and the new entry goes to the end of the registration order.
+func (h *Host) setHandler(pid protocol.ID, m func(protocol.ID) bool, handler network.StreamHandler) {
 	h.mu.Lock()
+	h.dropOrder(pid)
 	h.handlers[pid] = handler
+	h.regOrder = append(h.regOrder, pid)
+	if m != nil {
+		if h.matchers == nil {
+			h.matchers = map[protocol.ID]func(protocol.ID) bool{}
+		}
+		h.matchers[pid] = m
+	}
 	h.mu.Unlock()
 }
 
-func (h *Host) SetStreamHandlerMatch(pid protocol.ID, _ func(protocol.ID) bool, handler network.StreamHandler) {
-	h.SetStreamHandler(pid, handler)
+func (h *Host) dropOrder(pid protocol.ID) {
+	delete(h.matchers, pid)
+	for i, p := range h.regOrder {
+		if p == pid {
+			h.regOrder = append(h.regOrder[:i:i], h.regOrder[i+1:]...)
+			return
+		}
+	}
 }
 
 func (h *Host) RemoveStreamHandler(pid protocol.ID) {
 	h.mu.Lock()
 	delete(h.handlers, pid)
+	h.dropOrder(pid)
 	h.mu.Unlock()
+}
+
+// Negotiate resolves the protocol of an inbound stream against the CURRENT
+// handler table the way a real host's multistream muxer does: the remote
+// proposes its IDs one after the other; for each proposal the registered
+// handlers are asked in registration order (a handler set with
+// SetStreamHandler matches its own name only, one set with
+// SetStreamHandlerMatch whatever its match function accepts); the first
+// proposal that finds a handler is the stream's protocol ID (the PROPOSED ID,
+// not the handler's name). No proposal accepted: ("", nil), the negotiation
+// is refused.
+func (h *Host) Negotiate(proposals ...protocol.ID) (protocol.ID, network.StreamHandler) {
+	type entry struct {
+		name  protocol.ID
+		match func(protocol.ID) bool
+		hd    network.StreamHandler
+	}
+	h.mu.Lock()
+	table := make([]entry, 0, len(h.regOrder))
+	for _, p := range h.regOrder {
+		table = append(table, entry{p, h.matchers[p], h.handlers[p]})
+	}
+	h.mu.Unlock()
+	for _, prop := range proposals {
+		for _, e := range table {
+			if (e.match == nil && e.name == prop) || (e.match != nil && e.match(prop)) {
+				return prop, e.hd
+			}
+		}
+	}
+	return "", nil
 }
 
 // Handler returns the registered handler for a protocol (nil if none).
